@@ -8,7 +8,7 @@ for d in seeded/*/; do
   ./check $P quick > /tmp/regress-$L.log 2>&1; rc=$?
   nv=$(grep -c '^VIOLATION' /tmp/regress-$L.log); nf=$(grep -c 'no-failing-input-found' /tmp/regress-$L.log)
   echo "$L -> $P exit=$rc violations=$nv without-input=$nf : $(tail -1 /tmp/regress-$L.log | cut -c1-110)"
-  git -C /repo checkout -- .
+  git -C /repo checkout -- . ; git -C /repo clean -fdq src
 done
 git -C /repo status --short | head -3
 rm -rf /verif/replays
